@@ -164,13 +164,12 @@ func (e *LinEval) Key(v ssa.Value) string {
 			}
 			return x.Name()
 		case *ssa.Alloc:
-			if !x.Heap {
-				if sv := singleStore(x); sv != nil {
-					// spilled value parameter: `t0 = local T (b); *t0 = b`
-					if _, ok := sv.(*ssa.Parameter); ok {
-						v = sv
-						continue
-					}
+			if sv := singleStore(x); sv != nil {
+				// spilled value parameter: `t0 = local T (b); *t0 = b` (or `new T (b)` when its
+				// address escapes)
+				if _, ok := sv.(*ssa.Parameter); ok {
+					v = sv
+					continue
 				}
 			}
 			return x.Name()
